@@ -64,7 +64,7 @@ Section Model.
   Definition sat (x lo hi : T) : T := if lo <? x then (if x <? hi then x else hi) else lo.
 
   (* which planning branch a call took (coverage bookkeeping of the model; not part of the C state) *)
-  Inductive trap_branch := TB_equal | TB_vc2_nonpos | TB_cruise | TB_acc | TB_acc_neg | TB_dec | TB_dec_neg | TB_accdec.
+  Inductive trap_branch := TB_equal | TB_vm_zero | TB_vc2_nonpos | TB_cruise | TB_acc | TB_acc_neg | TB_dec | TB_dec_neg | TB_accdec.
 
   (* a_trajtrap_gen, src/trajtrap.c:8-77.  Result: (context, return value, branch). *)
   Definition trap_gen_b (c : trap T) (vm ac de p0 p1 v0 v1 : T) : trap T * T * trap_branch :=
@@ -73,6 +73,7 @@ Section Model.
     let reversed := p <? #0 in
     if ac ==? de then (c, #0, TB_equal) else
     let vm := if vm <? #0 then - vm else vm in
+    if vm ==? #0 then (c, #0, TB_vm_zero) else            (* a zero velocity limit admits no motion (fix C14-1) *)
     let v0 := sat v0 (- vm) vm in
     let v1 := sat v1 (- vm) vm in
     let c := t_set_p0 p0 c in
@@ -171,7 +172,7 @@ Section Model.
   Definition trap_branch_code (b : trap_branch) : T :=
     match b with
     | TB_equal => #0 | TB_vc2_nonpos => #1 | TB_cruise => #2 | TB_acc => #3 | TB_acc_neg => #4
-    | TB_dec => #5 | TB_dec_neg => #6 | TB_accdec => #7
+    | TB_dec => #5 | TB_dec_neg => #6 | TB_accdec => #7 | TB_vm_zero => #8
     end.
   (* one line of the correspondence: return value, the 12 fields; then the branch code (model only) *)
   Definition trap_gen_line (c0 : list T) (vm ac de p0 p1 v0 v1 : T) : list T :=
